@@ -141,6 +141,13 @@ class World:
             c = cl(py)
             if c not in used:
                 used.append(c)
+        # the classes of the boxed scalars that occur: the boxing facts below say ty(box_int(i)) == int, ..., which is only
+        # useful together with the subclass order of those classes
+        for e in info["box"].values():
+            py = {"box_int": int, "box_bool": bool, "box_float": float, "box_str": str}[e.decl().name()]
+            c = cl(py)
+            if c not in used:
+                used.append(c)
         class_terms = {}
         for c in used:
             class_terms[c.t.get_id()] = c.t
@@ -893,6 +900,8 @@ class World:
                 digits.elem = C.INT
                 sign = VInt(z3.If(d.sign, 1, 0))
                 if ex_.branch(d.special == 0):
+                    # value = coefficient * 10**exponent: a finite Decimal with a non-negative exponent is an integer
+                    ex_.assume(z3.Implies(d.exp >= 0, d.val == z3.ToReal(z3.ToInt(d.val))))
                     return VTup([sign, digits, VInt(d.exp)])
                 e = z3.If(d.special == 1, z3.StringVal("F"), z3.If(d.special == 2, z3.StringVal("n"), z3.StringVal("N")))
                 return VTup([sign, digits, VStr(e)])
@@ -1500,7 +1509,16 @@ class World:
             it = as_int_term(args[0]) if args else z3.IntVal(0)
             if it is not None:
                 return VInt(it)
-            if isinstance(args[0], VFloat):
+            if args and isinstance(args[0], VDec):
+                # int(Decimal): truncation toward zero; OverflowError for an infinity, ValueError for a NaN
+                d = args[0]
+                if ex.branch(d.special >= 2):
+                    ex.throw("ValueError", node, origin="int(Decimal nan)")
+                if ex.branch(d.special == 1):
+                    ex.throw("OverflowError", node, origin="int(Decimal inf)")
+                fl = z3.ToInt(d.val)
+                return VInt(z3.If(d.val >= 0, fl, z3.If(z3.ToReal(fl) == d.val, fl, fl + 1)))
+            if args and isinstance(args[0], VFloat):
                 c = z3.simplify(args[0].t)
                 if z3.is_fp_value(c) and not (c.isNaN() or c.isInf()):
                     import struct
